@@ -23,7 +23,7 @@ EXTENDS TextCodec, Json
 
 CONSTANTS Buffering,    \* "own" | "shared"
           Memo,         \* "none" | "layout" | "path": read results memoised (deviating mechanisms)
-          WTier,        \* "quick": every merge with 2 of the 12 (entry points, twin design) combinations, spread by
+          WTier,        \* "quick": every merge with 1 of the 12 (entry points, twin design) combinations, spread by
                         \*          a hash of the merge | "thorough": every merge with every combination
           DoExport
 
@@ -153,7 +153,7 @@ WHash(h) == IF h = <<>> THEN 17 ELSE (WHash(SubSeq(h, 1, Len(h) - 1)) * 31 + h[L
 EntIdx == (IF ent[1] = "sfile" THEN 0 ELSE 2) + (IF ent[2] = "sfile" THEN 0 ELSE 1)
 TwinIdx == CHOOSE i \in 1..3 : Twins[i] = twin
 Combo == EntIdx * 3 + (TwinIdx - 1)                                     \* 0..11
-Selected == WTier = "thorough" \/ ((WHash(hist) + Combo) % 6) = 0
+Selected == WTier = "thorough" \/ ((WHash(hist) + Combo) % 12) = 0
 Export == (DoExport /\ Done /\ Selected) =>
     PrintT(<<"SESSION", ToJson([kinds |-> kinds, ent |-> <<ent[1], ent[2]>>, twin |-> twin,
                                 dcode |-> IF (WHash(hist) % 2) = 0 THEN 44 ELSE 9,
